@@ -606,6 +606,7 @@ func c03Systems(tier string) []*BXSystem {
 }
 
 func init() {
+	bxSystemSets["C03"] = c03Systems
 	register(&CheckDef{
 		Property:  "C03",
 		Technique: "explicit-state breadth-first search over operation histories of the real circuit breaker with exact state de-duplication, compared with a reference model in every state",
